@@ -269,6 +269,10 @@ class ServerSet(object):
     # stat == None -> the node was deleted (or doesnt exist)
     if stat is None:
       self._watching = False
+      # A children watch that outlives the deletion (the path was re-created
+      # before it listed again) must not report members while we consider the
+      # path gone; a fresh watch is started when the data watch sees the path.
+      self._watch_generation += 1
       self._send_all_removed()
     elif not self._watching or stat.czxid != self._watched_czxid:
       if self._watching:
